@@ -16,6 +16,10 @@ mod hist;
 mod sized;
 #[path = "c03/snaps.rs"]
 mod snaps;
+#[path = "../session_matrix.rs"]
+mod session_matrix;
+#[path = "c03/matrix.rs"]
+mod matrix;
 
 // ---------------------------------------------------------------- ordered JSON AST (numbers = token text)
 #[derive(Clone, Debug, PartialEq)]
@@ -1102,6 +1106,9 @@ fn deep_frames() -> Vec<(String, Event)> {
 }
 
 fn main() {
+    // nothing from the caller's environment reaches a run: the configuration matrix sets the switches it drives
+    let home = Scratch::new("c03home");
+    session_matrix::scrub_env(home.path());
     let a = parse_args();
     let mut res = RunResult::new("C03", &a);
     res.rule = "(a) one case = one JSON document for serde_json::from_str::<Event>, generated from the extracted schema (every variant x {all fields, minimal, random presence, explicit nulls} x aliases x unicode/large/nested/number corner values) plus one of 15 malformed/unusual variations, plus hand-built frames holding Some(Null) and deeply nested payloads, plus frames produced by the real provider path (SSE bytes -> SseDecoder -> EventFrameMapper, incl. float and deeply nested payloads), plus real log lines produced by the histories; the model decodes/re-encodes the same document inside Coq. (b) one history = 5-40 continuity operations, provider-less session runs (tool output chunks), tool tasks (output deltas while running), cache-loss steps (continuity_streams/ or one thread's sidecar removed while the store lives) and replay_events calls on the real store; restarts of the store and periods in which the log's writer sits on a full disk (events.jsonl is a symlink that points at /dev/full while the writer is opened: every write op returns an error); the views are compared DURING the history (after every frame a live subscriber has, once its emit step is over, a fresh reader of events.jsonl / the sidecar must find it; replay_events = log; after EVERY op, failed ones included, every frame a fresh reader finds under continuity_streams/ must be in events.jsonl) and frame for frame at the end; 5 fixed regression histories run first. (d) 4 OS threads append to one thread of a real store at the same time (free running): live order = order in events.jsonl = sidecar = replay_events and the log replays. (e) one session of 17 005 frames (ls over 17 000 files): live = log = snapshot. (f) one session run on an engine whose log writer sits on a full disk (known finding W3). (g) frames of EVERY size through the real emit paths: one store, ~45 streams (quick) whose payload is a unit of one of 16 character classes (ASCII, quote, backslash, newline, NUL / control characters, DEL, 2- / 3- / 4-byte UTF-8, U+2028, U+FFFD, noncharacters, a mixed unit) repeated to 1 B .. 5.3 MB as written (anchors on both sides of 8 KiB, 64 KiB, 1 / 2 / 4 MiB + sizes drawn log-uniformly from the seed), entering as a prompt (session_started.input, output_text_delta), tool arguments (tool_started.args, also nested 124 deep), one tool output chunk (tool_stdout), a provider event from a scripted OpenResponses server (provider_event raw + data, output_text_delta), task arguments (POST /tasks: tool_task_spawned.args) and a continuity message; a live subscriber attached before each run; per stream live = snapshot (sidecar, replay_events) = the stream's lines in events.jsonl, nothing live or in the snapshot that is not in the log, at the end replay_validated of the whole log and the continuity written before; a failing size is bisected; every stream also goes to the model as its frames with long strings run-length folded (byte length + code-point sum of each line and the views of each frame compared). (i) 3 rounds of 6 sessions of one engine spawned at once whose snapshot writes are made to overlap (a rip_verif hook holds each write_snapshot at snap.created until all six have arrived): per session live = snapshot = log. (h) frames of six types x sizes up to 4.2 MB appended to a real EventLog: append must return Ok (a refusal is a violation), a fresh reader finds the line; one document per frame type with a 70 KB .. 2.3 MB field through the codec oracle and the store oracle. (c) every accepted document is appended to a real EventLog and looked up by a fresh reader after append returns. non-trivial = accepted documents with at least one optional/vector/Value field or a variation; distinct by document text".into();
@@ -1109,6 +1116,21 @@ fn main() {
     let schema: Value = serde_json::from_str(&std::fs::read_to_string(&schema_path).unwrap_or_else(|e| panic!("cannot read {schema_path}: {e}"))).expect("schema json");
     let variants: Vec<Value> = schema["variants"].as_array().cloned().unwrap_or_default();
     let thorough = a.thorough();
+    if a.extra.get("only").map(|s| s.as_str()) == Some("matrix") {
+        // the configuration matrix alone (debugging / replay of a config_* violation): oracle only
+        let x = matrix::config_matrix(a.seed, thorough);
+        for n in &x.notes {
+            println!("note: {n}");
+        }
+        for v in &x.violations {
+            println!("VIOLATION-CANDIDATE [{}] {}", v.class, v.what);
+        }
+        for (t, _) in x.cases.iter().take(6) {
+            println!("head case: {t}");
+        }
+        println!("c03 --only matrix: {} runs, {} oracle checks, {} violations, {} heads", x.evaluations, x.oracle_checks, x.violations.len(), x.cases.len());
+        return;
+    }
     let per_variant = if thorough { 120 } else { 14 };
     let n_hist = if thorough { 400 } else { 60 };
     let mut r = Rng::new(a.seed);
@@ -1155,6 +1177,22 @@ fn main() {
         res.notes.extend(x.notes.iter().cloned());
         res.oracle_violations.append(&mut x.violations);
         sized_cases.append(&mut x.cases);
+    }
+
+    // ---- (j) session streams under every configuration switch session.rs branches on
+    let mut head_cases: Vec<(String, Value)> = vec![];
+    {
+        let mut x = matrix::config_matrix(a.seed, thorough);
+        res.oracle_checks += x.oracle_checks;
+        res.evaluations += x.evaluations;
+        for (k, v) in &x.distribution {
+            res.bump_by(k, *v);
+        }
+        res.bump_by("hist.frames_compared", x.frames_compared);
+        res.notes.extend(x.notes.iter().cloned());
+        res.notes.extend(matrix::switch_notes(&a.repo()));
+        res.oracle_violations.append(&mut x.violations);
+        head_cases.append(&mut x.cases);
     }
 
     // ---- (a) documents
@@ -1318,12 +1356,24 @@ fn main() {
         }
         wz.flush();
     }
+    // the request heads of the configuration matrix: their own case files, ids from 6 000 000
+    let mut wh = CaseWriter::new(&a.out.join("matrix"), "Model.WireRun Gen.RequestHead", "check_head", "head_obs", 200).with_base(6_000_000);
+    if !a.oracle_only() {
+        for (term, replay) in &head_cases {
+            let id = wh.push(term.clone());
+            if res.case_index.len() < 3400 {
+                res.case_index.insert(id.to_string(), replay.clone());
+            }
+        }
+        wh.flush();
+    }
+    res.bump_by("config.heads_compared_with_the_model", head_cases.len() as u64);
     res.bump_by("sized.cases_compared_with_the_model", sized_cases.len() as u64);
     let docs: Vec<&str> = cases.iter().map(|c| c.doc_text.as_str()).collect();
     store_oracle(&docs, a.seed, &mut res);
     res.bump_by("doc.accepted", accepted);
     res.distinct_nontrivial = distinct.count();
-    res.case_files = w.files.iter().chain(wz.files.iter()).map(|p| p.display().to_string()).collect();
+    res.case_files = w.files.iter().chain(wz.files.iter()).chain(wh.files.iter()).map(|p| p.display().to_string()).collect();
     res.write(&a.out);
     println!(
         "c03: {} documents ({} accepted), {} histories / {} frame-view comparisons, {} oracle violations, {} panics",
